@@ -1320,7 +1320,11 @@ class TangentVector(PointPair):
         v2 = project_to_hyperboloid(self.point, other.normalized().vector)
 
         product = utils.apply_bilinear(v1, v2, self.minkowski)
-        return np.arccos(product)
+
+        # the product of two unit vectors can round to slightly more
+        # than 1 in modulus, which would make arccos return nan for
+        # parallel vectors
+        return np.arccos(np.clip(product, -1, 1))
 
     def point_along(self, distance):
         """Get a point in hyperbolic space along the geodesic specified by
